@@ -148,6 +148,25 @@ NEEDS = {
  "R6-C15-b": ("twolevel_binomial.py: reload skipped `if self._n != cp_n`", "period 1, finalize(2), second pass: Copy(1, DISK, WORK) missing [C09]"),
  "R6-C16-a": ("hrevolve.py: operation list from an lru_cache'd helper + `_schedule.clear()` before EndReverse", "two HRevolve objects with equal parameters in one process: the second emits only EndReverse [C15]"),
  "R6-C16-b": ("hrevolve.py __init__: asserts replaced by `ram + (disk or 0) < 1`", "HRevolve(2,0,d>=1) accepted, emits a stream with a RAM write against budget 0 [C17]"),
+ "R6-C14-a": ("twolevel_binomial.py: Move(cp_n, ...) became Move(n0, ...) (look-alike local)", "two binomial checkpoints at consecutive steps in one block: period >= 4, binomial_snapshots >= 2: TwoLevel(4,2,RAM) n=8 leaves RAM {1,5} [C04]"),
+ "R6-C14-b": ("schedule.py __iter__: an exhausted running schedule drops its generator 'so it can be iterated again'", "a second for-loop / iter() after the final EndReverse: Multistage(6,1,1) emits actions again [C02]"),
+ # ---- round 7 (ids R7-<slot>-a/b): properties and files with the fewest seeds so far
+ "R7-C02-a": ("hrevolve.py _iterator: Reverse clears its dependencies only if the next load is from memory", "HRevolve with cheap disk (wd+rd <= uf or rd == 0): a disk load arrives while dependencies are held [C12]"),
+ "R7-C02-b": ("hrevolve.py _iterator: last-read pre-scan replaced by step-keyed bookkeeping that Discard wipes", "DiskRevolve/Periodic with wd+rd < uf: DiskRevolve(3,1,uf=3,wd=1,rd=1) leaves DISK {0} [C04]"),
+ "R7-C03-a": ("basic_schedules.py SingleMemory: Reverse(max_n, 0, True) 'to free memory'", "second adjoint pass finds no dependency data [C01]"),
+ "R7-C03-b": ("basic_schedules.py SingleDisk(copy): `steps = reversed(range(max_n))` assigned once above the pass loop", "second and later passes emit only EndReverse [C02]"),
+ "R7-C04-a": ("hrevolve.py Revolve.__init__: slots clamped to steps - 1 on the already decremented step count", "snapshots_in_ram >= max_n - 1 >= 2: Revolve(3,2) 6 forward steps vs 5 [C05]"),
+ "R7-C04-b": ("mixed.py __init__: one unit reserved 'for the working copy' when storage=RAM", "storage=RAM, 2 <= s <= n-1: Mixed(3,2,RAM) 5 steps vs 3 [C06]"),
+ "R7-C05-a": ("hrevolve.py _iterator: fast path for max_n == 1 forgets `self._r = 1`", "any Revolve-family class with max_n == 1: r reads 0 after the Reverse [C08]"),
+ "R7-C05-b": ("schedule.py: `n` property clamps to max_n, finalize no longer rewinds _n", "finalize(n) repeated after a successful finalize beyond... TwoLevel(3,1): next, next, finalize(5), finalize(5) raises [C10]"),
+ "R7-C07-a": ("twolevel_binomial.py: reverse loop over `int(max_n / period + 0.5)` periods", "period >= 3 and 0 < n mod period < period/2: TwoLevel(3,1) finalised at 7 recomputes 13 steps vs 11 [C13]"),
+ "R7-C07-b": ("multistage.py allocate_snapshots: weights zipped from (reads, reads, deletes)", "mixed split, 'maximum' trajectory, ~19 of 3600 splits for n <= 30: Multistage(7,1,1) 5 DISK accesses vs 4 [C14]"),
+ "R7-C08-a": ("disk_revolve.py builder: the two candidate lists merged, `wd` term lost", "default costs, 9 of 200 (n, ram) pairs: DiskRevolve(8,2) cost 31 vs 30 [C07]"),
+ "R7-C08-b": ("periodic_disk_revolve.py: unbounded while replaced by `for t in range(ceil(ratio))`", "wd + rd == uf exactly: Periodic(7,1,uf=4,wd=2,rd=2) period 1 instead of cm+1 [C19]"),
+ "R7-C01-a": ("hrevolve.py _iterator: last-read table keyed by (operation name, step), snapshots a dict step -> storage", "HRevolve that writes to DISK and continues from a RAM checkpoint of the same step: HRevolve(6,1,1) leaves DISK step 0 [C04]"),
+ "R7-C01-b": ("basic_schedules.py SingleDisk: Reverse(n1, n0, self._r < self._max_n)", "copy mode, second pass: the first Copy loads while step 0's dependencies are still held [C12]"),
+ "R7-C06-a": ("disk_revolve.py: replayed segment built with revolve(jmin - 1, cm + 1)", "wd+rd >= ~2 uf and disk checkpoints >= ram+2 apart: DiskRevolve(8,1) holds 2 RAM checkpoints [C03]"),
+ "R7-C06-b": ("hrevolve_sequences/hrevolve.py hrevolve_aux: left part only inserted `if jmin > 1`", "disk I/O cheaper than a forward step: HRevolve(3,1,1,wd=0.25,rd=0.25) EndReverse at r=2 [C02]"),
 
 }
 
